@@ -43,6 +43,8 @@ class Recorder:
         self.unexpected = []              # natural DB-API failures (not injected)
         self.closed = {}                  # actor -> [conn ids with a close() call]
         self.default_actor = 1            # threads that never called set_actor
+        self.fail_next = None             # DB-API op name: the next call of that kind fails (one shot)
+        self.nfaults = 0
 
     # -- actors -------------------------------------------------------------------------------------------
     def set_actor(self, a):
@@ -105,7 +107,9 @@ class Recorder:
         w = 0
         if op == 'exec' and kind == 'write':
             w = self.match_write(sql, args)
-        if self.fault_at == self.calls:
+        if self.fault_at == self.calls or (self.fail_next is not None and self.fail_next == op):
+            self.fail_next = None
+            self.nfaults += 1
             self.fault_hit = (a, op, kind)
             if self.fault_mode == 'crash':
                 self.emit('Db', op=op, conn=conn_id, kind=kind, w=w, out='crash')
